@@ -601,7 +601,18 @@ func genDumpCase(t *rapid.T) (*DumpCase, bool) {
 	if rapid.IntRange(0, 3).Draw(t, "mutate") == 0 && len(c.In) > 0 {
 		mutated = true
 		b := append([]byte{}, c.In...)
-		switch rapid.IntRange(0, 3).Draw(t, "mk") {
+		switch rapid.IntRange(0, 4).Draw(t, "mk") {
+		case 4:
+			// a length-delimited field whose declared length is far beyond the input: at the limits of the 32- and
+			// 64-bit integer types (in front, between two fields or at the end - also inside an expanded payload when
+			// the position falls into one)
+			hostile := refwire.AppendVarint(refwire.AppendKey(nil, rapid.SampledFrom([]int{1, 2, 15, 2048}).Draw(t, "hnum"), refwire.WTLen),
+				rapid.SampledFrom([]uint64{1<<31 - 1, 1 << 31, 1<<32 - 1, 1 << 32, 1 << 40, 1<<62 - 1, 1<<63 - 1, 1<<63 - 2, 1<<63 - 9, 1<<63 - 12, 1 << 63, 1<<64 - 1}).Draw(t, "hlen"))
+			pos := 0
+			if fs, err := refwire.Walk(b); err == nil && len(fs) > 0 {
+				pos = rapid.SampledFrom(append([]int{0, len(b)}, fs[rapid.IntRange(0, len(fs)-1).Draw(t, "hat")].End)).Draw(t, "hpos")
+			}
+			b = append(append(append([]byte{}, b[:pos]...), hostile...), b[pos:]...)
 		case 0:
 			b = b[:rapid.IntRange(0, len(b)-1).Draw(t, "tr")]
 		case 1:
@@ -633,7 +644,7 @@ func sanitizeStrings(c *DumpCase) {
 }
 
 const ruleC20 = "(hex) random byte strings rendered with random digit case, spaces/tabs/CR anywhere incl. between the two digits of a byte, line breaks at byte boundaries, ';' comments containing arbitrary text incl. ';' and hex digits, comment-only lines, a final comment without line break, 1 in 10 a single line whose separators are all the same string out of {none, space, tab, CR, form feed, vertical tab}, 1 in 10 with one physical line of 1000 .. 200001 bytes (sizes around 4 KiB and 64 KiB; hex digits, a long comment, a whitespace run or a comment-only line) between two ordinary parts; 1 in 4 corrupted with one non-hex non-space character outside comments, 1 in 8 with one hex digit dropped (odd digit count) - both must be rejected; oracle: ParseAnnotatedHex(render(b)) == b. " +
-	"(protodump) generated wire sequences (nesting depth <= 3, all four wire types, numbers up to 2^29-1, 1 in 8 length-delimited payloads 63..4097 bytes long), 1 in 4 mutated, x random disjoint -expand/-strings path sets over present and absent paths; dumpProto (working-tree source compiled into the harness) and the built binary (-file, stdin pipe, stdin file) are read by a tolerant reader into (depth, number, wire type, value) entries == refwire walk recursing into exactly the expand paths; malformed => error, never a panic. " +
+	"(protodump) generated wire sequences (nesting depth <= 3, all four wire types, numbers up to 2^29-1, 1 in 8 length-delimited payloads 63..4097 bytes long), 1 in 4 mutated (truncated, a byte overwritten, garbage appended / prepended, a length-delimited field declaring a length at the limits of the 32- / 64-bit integer types inserted), x random disjoint -expand/-strings path sets over present and absent paths; dumpProto (working-tree source compiled into the harness) and the built binary (-file, stdin pipe, stdin file) are read by a tolerant reader into (depth, number, wire type, value) entries == refwire walk recursing into exactly the expand paths; malformed => error, never a panic. " +
 	"non-trivial = hex text with >= 1 comment and >= 1 line break; dump input with >= 1 length-delimited field and >= 1 path; distinct by text / (input, paths)"
 
 func TestC20(t *testing.T) {
